@@ -369,7 +369,7 @@ func family(c cfg, budget int) *core.Family {
 	return &core.Family{
 		Name:          fmt.Sprintf("sched-depth%d-bound%d-%s", c.depth, c.bound, coName(c.names)),
 		Size:          size,
-		HangSeconds:   300,
+		HangSeconds:   budget + 900, // a case is a whole sub-search: it stops itself when the budget expires
 		BudgetSeconds: budget,
 		Show: func(i uint64) string {
 			return "histories starting with [" + histString(decode(i)) + "], all extensions to the depth bound, all schedules within the preemption bound"
@@ -484,7 +484,7 @@ func refFamily(names []string, depth, prefix, budget int) *core.Family {
 		return h
 	}
 	return &core.Family{
-		Name: fmt.Sprintf("refco-depth%d-%s", depth, coName(names)), Size: size, HangSeconds: 300, BudgetSeconds: budget,
+		Name: fmt.Sprintf("refco-depth%d-%s", depth, coName(names)), Size: size, HangSeconds: budget + 900, BudgetSeconds: budget,
 		Show: func(i uint64) string {
 			return "histories starting with [" + histString(decode(i)) + "], all extensions to the depth bound, compared with the reference model"
 		},
